@@ -1109,10 +1109,29 @@ def _r5_mc2b(ctx, p, RULE):
         ctx.fail(RULE, MC2B, "alpha = 0", "mc2b does not start from a copy of the cepstrum (to_coef -> Coefficients::new -> to_vec): %s" % show(ret)[:80], m.loc())
 
 
+def initial_state(ctx, p, RULE="C06-R3"):
+    """a fresh filter is at rest: the state arrays of both Pade sections start as zeros (sweep
+    survivor: `d22: [1.0; N]` - a transient at the start of every utterance)"""
+    mn = p.body(ML + "new")
+    if mn is None:
+        return
+    r = ExprBuilder(mn).local(0)
+    vals = dict(zip(r[3], r[2])) if r[0] == "agg" and r[3] else {}
+    state = [(f, v) for f, v in vals.items() if show(v).startswith("[") and "; " in show(v)]
+    bad = [(f, show(v)) for f, v in state if not show(v).startswith("[0.0;")]
+    if bad:
+        ctx.fail(RULE, mn.path, "initial state", "state array(s) %s do not start as zeros: the filter is not at rest when the first sample arrives" % bad, mn.loc())
+    elif len(state) >= 3:
+        ctx.ok(RULE, "MelLogSpectrumApproximation::new: the %d scalar state arrays start as zeros" % len(state), mn.loc())
+    else:
+        ctx.note("C06-R3: state arrays of MelLogSpectrumApproximation::new not recognised as repeat literals; the at-rest clause was not evaluated")
+
+
 def run(ctx):
     p = cm.program(ctx)
     r1_r2_table(ctx, p)
     r3_sections(ctx, p)
+    initial_state(ctx, p)
     r4_fir(ctx, p)
     r5_wiring(ctx, p)
     ctx.note("not decided: the frequency-response law itself (log|H| = sum c_m cos(m w~) to 0.01 neper), the warped frequency axis, the effect of the per-sample interpolation, the SIMD variant of the FIR filter")
